@@ -134,8 +134,8 @@ func (c *Ctx) evalMod(env *SpecEnv, x ast.Expr, out *[]modEntry) {
 	case *ast.SliceExpr:
 		// x[:] — the elements addressable through slice x only: absolute indices [off, off+cap) of its backing array
 		// (x[*] is the coarser "whole backing array"; both sides of a contract use the same reading)
-		if v.Low != nil || v.High != nil || v.Max != nil {
-			specFail("modifies %s: only x[:] is supported", exprString(x))
+		if v.Low != nil || v.Max != nil {
+			specFail("modifies %s: only x[:] and x[:n] are supported", exprString(x))
 		}
 		b, ok := env.eval(v.X).(SliceV)
 		if !ok {
@@ -147,6 +147,10 @@ func (c *Ctx) evalMod(env *SpecEnv, x ast.Expr, out *[]modEntry) {
 		if !isAggregate(el) {
 			for k := n0; k < len(*out); k++ {
 				(*out)[k].lo, (*out)[k].hi = b.Off, c.idxAdd(b.Off, b.Cap)
+				if v.High != nil {
+					// x[:n] — only the first n elements (a callee that promises not to re-slice beyond n)
+					(*out)[k].hi = c.idxAdd(b.Off, env.idxTerm(env.eval(v.High)))
+				}
 			}
 		}
 		return
